@@ -1533,7 +1533,8 @@ struct Explorer {
       vector<string> roots = op.tool_args.empty() ? DefaultTargets(*v) : op.tool_args;
       set<int> stmts;
       set<string> nodes;
-      // -t commands follows inputs only (not validations)
+      // every statement a from-scratch build of the targets runs: producers of every input kind and the
+      // validations of each of them
       {
         vector<string> todo(roots.begin(), roots.end());
         while (!todo.empty()) {
@@ -1542,7 +1543,7 @@ struct Explorer {
           auto p = v->producer.find(n);
           if (p == v->producer.end() || !stmts.insert(p->second).second) continue;
           const Stmt& s = v->stmts[p->second];
-          for (auto* l : {&s.ex, &s.im, &s.oo}) for (auto& x : *l) todo.push_back(x);
+          for (auto* l : {&s.ex, &s.im, &s.oo, &s.val}) for (auto& x : *l) todo.push_back(x);
         }
       }
       set<string> want;
